@@ -27,6 +27,7 @@ def check(run):
     nowrite(run, p)
     extcase(run, p)
     defaults(run, p)
+    applicable(run, p)
     from .common import observed_rule
     calc = p.cls('PandasConstraintCalculator')
     n = observed_rule(run, 'C17-OBSERVED', p, list(calc.methods.values()),
@@ -299,3 +300,34 @@ def defaults(run, p):
                        'tdda %s tests `%s`; the parser declares it with %s' % (cmd, norm(x), why or 'no default, so it is None when absent'),
                        fn=pf, node=call)
     run.floor('C17-DEFAULTS', n, 20)
+
+
+def applicable(run, p):
+    from ..pyeval import Interp, Obj, Unsupported
+    run.rule('C17-APPLICABLE', 'the pandas front end takes every command line the documentation shows: over representative argument '
+                               'lists (a data file first or after option flags, `-` for standard input in any position, upper-case '
+                               'extensions, a constraints file only) TDDAPandasExtension.applicable() is true exactly when some '
+                               'argument is `-` or names a flat file - evaluated by abstract interpretation')
+    c = p.cls('TDDAPandasExtension')
+    f = c.methods['applicable']
+    I = Interp(p)
+    cases = [
+        (['discover', 'data.csv', 'out.tdda'], True), (['verify', 'data.parquet', 'c.tdda'], True), (['verify', 'DATA.CSV'], True),
+        (['discover', '-', 'out.tdda'], True), (['verify', '-7', '-', 'c.tdda'], True), (['verify', '--epsilon', '0.05', '-', 'c.tdda'], True),
+        (['detect', '--index', '-', 'c.tdda', '-'], True), (['verify', 'c.tdda'], False), (['discover', 'table', 'out.tdda'], False),
+        (['detect', 'x.psv', 'c.tdda', 'out.csv', '--write-all'], True), (['verify', '-a', 'data.tsv'], True), (['verify'], False),
+    ]
+    n = 0
+    for argv, want in cases:
+        o = Obj(c)
+        o.attrs['argv'] = list(argv)
+        I.steps = 0
+        try:
+            got = bool(I.call(f, [], selfobj=o))
+        except Unsupported as e:
+            raise AnalysisError('applicable() not interpretable: %s' % e)
+        n += 1
+        run.ob('C17-APPLICABLE', 'argv=%s' % ' '.join(argv), got == want,
+               'tdda %s: the pandas front end %s it (expected: %s)' % (' '.join(argv), 'takes' if got else 'does not take', 'takes' if want else 'leaves'),
+               fn=f)
+    run.floor('C17-APPLICABLE', n, 10)
